@@ -19,7 +19,7 @@ from props._slicing_util import (canon_slice, compositions, dec_slice, enc_slice
 PROP = "C20"
 READY = True
 DRIVER = "dm_slicing"
-LEAN_MODULES = ["DaskModel.Props.C20"]
+LEAN_MODULES = ["DaskModel.Props.C20", "DaskModel.Props.C20Cache"]
 TABLES = ["ChunkTolerance"]   # array.chunk-size-tolerance (dask.yaml), used by the take/_shuffle regrouping model
 CASE_TIMEOUT_S = 20
 LEVEL_TEXT = (
@@ -38,7 +38,14 @@ LEVEL_TEXT = (
     "loses/duplicates none, point i lands at block i/M index i%M and is read at in-block indices that address its "
     "own coordinates (vindex_den). Validated against NumPy only: the per-source-block split / argsort / merge "
     "inside _shuffle, dask-array indexers (slice_with_int/bool_dask_array), full-shape masks, blocks[], and NumPy's "
-    "behaviour on one block."
+    "behaviour on one block. Histories on ONE Array object: the cached attributes "
+    "(_cached_keys, _key_array, numblocks, npartitions, shape, ndim, size) are modelled as a state machine (ArrayCache: "
+    "setters and cached reads of class Array); for every history of cached reads, __setitem__-style and out=-style "
+    "in-place mutations and block-count-preserving _chunks assignments every read returns what a fresh array with the "
+    "current name and chunks returns (history_reads_fresh; the invalidation in the _name setter is shown necessary); the "
+    "machine is diffed step by step (answers and WHICH caches are filled) against real Array objects, and API-level "
+    "histories (.blocks/.partitions/keys/to_delayed/vindex/getitem around x[i]=v, out=x, compute_chunk_sizes) are "
+    "compared with NumPy with the invariant evaluated on the object after every step."
 )
 LEVEL_NOTE = (
     "Trusted: Lean kernel; the hand-written models Slice1D / SliceND / NormIndex / Take / VIndex, each diffed on "
@@ -835,6 +842,284 @@ def case_vindexplan(ctx, inp):
         ctx.branch("vindexplan-other-axes")
 
 
+# --------------------------------------------------------------------------------------
+# histories on ONE Array object: cached attributes vs in-place mutations
+# --------------------------------------------------------------------------------------
+
+_CACHED = ("_key_array", "numblocks", "npartitions", "shape", "ndim", "size")
+
+
+def _filled(x):
+    return [x._cached_keys is not None] + [k in x.__dict__ for k in _CACHED]
+
+
+def _keys_summary(keys, ndim):
+    """(name, numblocks) a nested key list / key array was made from; None if it is not a regular grid of one name"""
+    import numpy as np
+    arr = np.array(keys, dtype=object)
+    if arr.ndim != ndim + 1 or arr.shape[-1] != ndim + 1:
+        return None
+    names = set(arr[..., 0].ravel().tolist())
+    if len(names) != 1:
+        return None
+    for idx in np.ndindex(arr.shape[:-1]):
+        if tuple(arr[idx][1:].tolist()) != idx:
+            return None
+    return names.pop(), [int(v) for v in arr.shape[:-1]]
+
+
+def _cache_invariant(ctx, x, where):
+    """The Lean predicate `ArrayCache.Valid` evaluated on the real object: every filled cache holds what a fresh array
+    with the current name and chunks would compute."""
+    import math
+    nd = len(x.chunks)
+    nb = [len(c) for c in x.chunks]
+    fresh_shape = [sum(c) for c in x.chunks]
+
+    def same(a, b):
+        return len(a) == len(b) and all((u == v) or (u != u and v != v) for u, v in zip(a, b))
+
+    d = x.__dict__
+    bad = None
+    if "numblocks" in d and list(d["numblocks"]) != nb:
+        bad = ("numblocks", list(d["numblocks"]), nb)
+    elif "npartitions" in d and d["npartitions"] != math.prod(nb):
+        bad = ("npartitions", d["npartitions"], math.prod(nb))
+    elif "shape" in d and not same(list(d["shape"]), fresh_shape):
+        bad = ("shape", [repr(v) for v in d["shape"]], [repr(v) for v in fresh_shape])
+    elif "ndim" in d and d["ndim"] != nd:
+        bad = ("ndim", d["ndim"], nd)
+    elif x._cached_keys is not None and _keys_summary(x._cached_keys, nd) != (x.name, nb):
+        bad = ("_cached_keys", repr(_keys_summary(x._cached_keys, nd)), [x.name, nb])
+    elif "_key_array" in d and _keys_summary(d["_key_array"], nd) != (x.name, nb):
+        bad = ("_key_array", repr(_keys_summary(d["_key_array"], nd)), [x.name, nb])
+    if bad is not None:
+        ctx.fail("a cached attribute of the Array is stale after " + where + ": " + bad[0]
+                 + " differs from what a fresh array with the current name and chunks computes",
+                 observed=bad[1], expected=bad[2])
+        return False
+    return True
+
+
+def case_cache(ctx, inp):
+    """Primitive history on a real Array object — cached reads, `_name` / `_chunks` assignments, the real handle_out —
+    against the Lean state machine `ArrayCache`: every answer and, after every step, WHICH caches are filled."""
+    import numpy as np
+    import dask.array as da
+    from dask.array.core import handle_out
+    chunks = [list(c) for c in inp["chunks"]]
+    nd = len(chunks)
+    x = da.zeros(tuple(sum(c) for c in chunks), chunks=tuple(tuple(c) for c in chunks), dtype="i8", name="n1")
+    model_ops, real = [], []
+    for op in inp["ops"]:
+        k = op[0]
+        if k == "r":
+            what = op[1]
+            model_ops.append([Sym("r"), Sym(what)])
+            if what == "keys":
+                sm = _keys_summary(x.__dask_keys__(), nd)
+                ans = None if sm is None else [int(sm[0][1:]), sm[1]]
+            elif what == "keyarray":
+                sm = _keys_summary(x._key_array, nd)
+                ans = None if sm is None else [int(sm[0][1:]), sm[1]]
+            elif what in ("numblocks", "shape"):
+                ans = [None, [int(v) for v in getattr(x, what)]]
+            else:
+                ans = [None, [int(getattr(x, what))]]
+            real.append([ans, _filled(x)])
+        elif k == "wname":
+            model_ops.append([Sym("wname"), op[1]])
+            x._name = "n%d" % op[1]
+            real.append([None, _filled(x)])
+        elif k == "wchunks":
+            model_ops.append([Sym("wchunks"), op[1]])
+            x._chunks = tuple(tuple(c) for c in op[1])
+            real.append([None, _filled(x)])
+        elif k == "assign":       # the two assignments of Array.__setitem__, in its order
+            model_ops.append([Sym("assign"), op[1], op[2]])
+            x._name = "n%d" % op[1]
+            x._chunks = tuple(tuple(c) for c in op[2])
+            real.append([None, _filled(x)])
+        elif k == "out":          # the real handle_out (it reads out.shape first)
+            res = da.zeros(tuple(sum(c) for c in op[2]), chunks=tuple(tuple(c) for c in op[2]), dtype="i8", name="n%d" % op[1])
+            model_ops.append([Sym("r"), Sym("shape")])
+            real.append([[None, [int(v) for v in x.shape]], _filled(x)])
+            model_ops.append([Sym("out"), op[1], op[2]])
+            handle_out(x, res)
+            real.append([None, _filled(x)])
+    model = unsym(ctx.lean(Sym("arraycache"), 1, chunks, model_ops))
+    ctx.eq("Array cache state machine (answers and filled caches after every step)", model, real)
+    kinds = [op[0] for op in inp["ops"]]
+    for j in range(1, len(kinds)):
+        if kinds[j] in ("wname", "assign", "out") and any(o == ["r", "keyarray"] for o in inp["ops"][:j]) and \
+                any(o == ["r", "keyarray"] for o in inp["ops"][j + 1:]):
+            ctx.branch("cache-keyarray-read-rename-read")
+            break
+    for k in set(kinds):
+        ctx.branch("cache-op-" + k)
+
+
+def _block_positions(true_chunks, spec):
+    """global positions selected by indexing the block grid with `spec` (int / slice / list per axis)"""
+    pos = []
+    for ch, (kind, v) in zip(true_chunks, spec):
+        starts = [sum(ch[:i]) for i in range(len(ch))]
+        nb = len(ch)
+        sel = [v % nb] if kind == "int" else (list(range(nb))[slice(*v)] if kind == "slice" else [i % nb for i in v])
+        p = []
+        for b in sel:
+            p.extend(range(starts[b], starts[b] + ch[b]))
+        pos.append(p)
+    return pos
+
+
+def _block_positions_sel(true_chunks, spec):
+    """per axis the list of selected block numbers"""
+    out = []
+    for ch, (kind, v) in zip(true_chunks, spec):
+        nb = len(ch)
+        out.append([v % nb] if kind == "int" else (list(range(nb))[slice(*v)] if kind == "slice" else [i % nb for i in v]))
+    return out
+
+
+def case_hist(ctx, inp):
+    """A HISTORY on one Array object: accessors that fill cached attributes (.blocks[...], .partitions[...],
+    __dask_keys__(), numblocks, chunks, shape, npartitions, to_delayed(), .vindex[...], x[...]) mixed with in-place
+    mutations (x[idx] = v, ufunc out=x with the same or with other chunks, compute_chunk_sizes()), no compute/persist of x
+    in between unless the history says so. After every step the result is compared with NumPy applied to the same history
+    and the cache invariant (Lean `ArrayCache.Valid`) is evaluated on the object."""
+    import numpy as np
+    import dask
+    import dask.array as da
+    chunks = [list(c) for c in inp["chunks"]]
+    shape = [sum(c) for c in chunks]
+    y = np.arange(int(np.prod(shape))).reshape(shape) * 2 + 1
+    x = da.from_array(y.copy(), chunks=tuple(tuple(c) for c in chunks))
+    true_chunks = [list(c) for c in chunks]
+    if inp.get("start") == "masked":
+        t = inp["threshold"]
+        m = y > t
+        cuts = np.cumsum([0] + chunks[0])
+        true_chunks = [[int(m[a:b].sum()) for a, b in zip(cuts[:-1], cuts[1:])]]
+        x = x[x > t]
+        y = y[m]
+    unknown = inp.get("start") == "masked"
+    nd = y.ndim
+
+    def bad(what, got, exp):
+        ctx.fail(what, observed=np.asarray(got).tolist(), expected=np.asarray(exp).tolist())
+
+    for step_no, op in enumerate(inp["ops"]):
+        k = op["op"]
+        where = "step %d (%s)" % (step_no, k)
+        try:
+            if k in ("blocks", "partitions"):
+                view = x.blocks if k == "blocks" else x.partitions
+                idx = tuple(v if kind == "int" else (slice(*v) if kind == "slice" else list(v)) for kind, v in op["idx"])
+                r = view[idx if len(idx) > 1 else idx[0]]
+                got = np.asarray(r.compute(scheduler="sync"))
+                exp = y[np.ix_(*_block_positions(true_chunks, op["idx"]))]
+                if got.shape != exp.shape or (got != exp).any():
+                    bad("x.%s[...] after the history differs from NumPy (%s)" % (k, where), got, exp)
+                    return
+                if not unknown and tuple(r.shape) != exp.shape:
+                    ctx.fail("lazy shape of x.%s[...] differs (%s)" % (k, where), observed=list(r.shape), expected=list(exp.shape))
+                    return
+            elif k == "keys":
+                sm = _keys_summary(x.__dask_keys__(), nd)
+                if sm != (x.name, [len(c) for c in true_chunks]):
+                    ctx.fail("__dask_keys__() is not the key grid of the current name/chunks (%s)" % where, observed=repr(sm))
+                    return
+                k0 = x.__dask_keys__()
+                while isinstance(k0, list):
+                    k0 = k0[0]
+                got = np.asarray(dask.get(dict(x.__dask_graph__()), k0))
+                exp = y[tuple(slice(0, c[0]) for c in true_chunks)]
+                if got.shape != exp.shape or (got != exp).any():
+                    bad("the first key of __dask_keys__() does not compute to the first block (%s)" % where, got, exp)
+                    return
+            elif k in ("numblocks", "npartitions", "shape", "chunks", "ndim", "size"):
+                v = getattr(x, k)
+                exp = {"numblocks": tuple(len(c) for c in true_chunks), "npartitions": int(np.prod([len(c) for c in true_chunks])),
+                       "shape": y.shape, "chunks": tuple(tuple(c) for c in true_chunks), "ndim": nd, "size": y.size}[k]
+                if not (unknown and k in ("shape", "chunks", "size")) and v != exp:
+                    ctx.fail("x.%s differs from NumPy applied to the same history (%s)" % (k, where), observed=repr(v), expected=repr(exp))
+                    return
+            elif k == "delayed":
+                dl = x.to_delayed()
+                if dl.shape != tuple(len(c) for c in true_chunks):
+                    ctx.fail("to_delayed() has the wrong grid (%s)" % where, observed=list(dl.shape))
+                    return
+                first = np.asarray(dl.ravel()[-1].compute(scheduler="sync"))
+                exp = y[tuple(slice(sum(c[:-1]), sum(c)) for c in true_chunks)]
+                if first.shape != exp.shape or (first != exp).any():
+                    bad("the last Delayed of to_delayed() is not the last block (%s)" % where, first, exp)
+                    return
+            elif k == "vindex":
+                pts = tuple(np.array(p, dtype=int) for p in op["points"])
+                got = np.asarray(x.vindex[pts].compute(scheduler="sync"))
+                exp = y[pts]
+                if got.shape != exp.shape or (got != exp).any():
+                    bad("x.vindex[...] differs from NumPy (%s)" % where, got, exp)
+                    return
+            elif k == "getitem":
+                idx = tuple(slice(*v) for v in op["idx"])
+                got = np.asarray(x[idx].compute(scheduler="sync"))
+                if got.shape != y[idx].shape or (got != y[idx]).any():
+                    bad("x[...] differs from NumPy (%s)" % where, got, y[idx])
+                    return
+            elif k == "compute":
+                got = np.asarray(x.compute(scheduler="sync"))
+                if got.shape != y.shape or (got != y).any():
+                    bad("x.compute() differs from NumPy (%s)" % where, got, y)
+                    return
+            # ---- in-place mutations
+            elif k == "setitem":
+                idx = tuple(slice(*v) if isinstance(v, list) else int(v) for v in op["idx"])
+                x[idx] = op["value"]
+                y = y.copy()
+                y[idx] = op["value"]
+            elif k == "out_add":
+                da.add(x, op["k"], out=x)
+                y = y + op["k"]
+            elif k == "out_neg":
+                np.negative(x, out=x)
+                y = -y
+            elif k == "out_rechunked":
+                z = da.from_array(y.copy(), chunks=tuple(tuple(c) for c in op["chunks"]))
+                da.multiply(z, 3, out=x)
+                y = y * 3
+                true_chunks = [list(c) for c in op["chunks"]]
+            elif k == "ccs":
+                x.compute_chunk_sizes()
+                unknown = False
+            else:
+                raise AssertionError(k)
+        except NotImplementedError:
+            ctx.note("dask-not-implemented")
+            return
+        except Exception as e:
+            if k in ("blocks", "partitions") and isinstance(e, ValueError) and \
+                    any(not p for p in _block_positions_sel(true_chunks, op["idx"])):
+                ctx.branch("hist-empty-block-selection-rejected")    # documented: an empty selection of blocks is rejected
+                continue
+            ctx.fail("history step raised %s (%s)" % (type(e).__name__, where), observed=repr(e)[:300])
+            return
+        if not _cache_invariant(ctx, x, where):
+            return
+    ops = [o["op"] for o in inp["ops"]]
+    muts = ("setitem", "out_add", "out_neg", "out_rechunked", "ccs")
+    for j, o in enumerate(ops):
+        if o in muts and any(a in ("blocks", "partitions") for a in ops[:j]) and any(a in ("blocks", "partitions") for a in ops[j + 1:]) \
+                and "compute" not in ops[:j + 1]:
+            ctx.branch("hist-blocks-mutate-blocks")
+            break
+    for o in set(ops):
+        ctx.branch("hist-" + o)
+    if inp.get("start") == "masked":
+        ctx.branch("hist-unknown-chunks-start")
+
+
 def case_exotic(ctx, inp):
     """Index elements of unusual but valid types: NumPy integer scalars (signed/unsigned), integer-valued floats,
     0-d arrays, lists of NumPy ints, small-dtype / unsigned index arrays (NumPy and dask), Python bool lists,
@@ -977,7 +1262,7 @@ def case_blocks(ctx, inp):
 
 
 CASES = {"exotic": case_exotic, "maskfull": case_maskfull, "normidx": case_normidx, "take": case_take, "pyslice": case_pyslice, "norm": case_norm, "slice1d": case_slice1d, "slice1dint": case_slice1dint, "slicend": case_slicend,
-         "api1d": case_api1d, "apind": case_apind, "vindex": case_vindex, "vindexplan": case_vindexplan, "blocks": case_blocks}
+         "api1d": case_api1d, "apind": case_apind, "vindex": case_vindex, "vindexplan": case_vindexplan, "cache": case_cache, "hist": case_hist, "blocks": case_blocks}
 
 
 # --------------------------------------------------------------------------------------
@@ -1037,9 +1322,169 @@ def _rand_nd_index(rng, shape, fancy=True):
     return spec
 
 
+def _rand_block_idx(rng, nbs):
+    idx = []
+    for nb in nbs:
+        t = rng.random()
+        if t < 0.35:
+            idx.append(("int", rng.randrange(-nb, nb)))
+        elif t < 0.8:
+            if rng.random() < 0.85:
+                a = rng.randrange(nb)
+                b = rng.randint(a + 1, nb)
+                sl = [a if a or rng.random() < 0.5 else None, b if b < nb or rng.random() < 0.5 else None, rng.choice([None, 1, 2])]
+                if rng.random() < 0.25:
+                    sl = [b - 1, a - 1 if a else None, -1]
+                idx.append(("slice", sl))
+            else:
+                v = [None] + list(range(-nb, nb + 1))
+                idx.append(("slice", [rng.choice(v), rng.choice(v), rng.choice([None, 1, -1, 2])]))
+        else:
+            idx.append(("list", [rng.randrange(nb) for _ in range(rng.randint(1, 3))]))
+    seen = False
+    for j, (k, _) in enumerate(idx):
+        if k == "list":
+            if seen:
+                idx[j] = ("slice", [None, None, None])
+            seen = True
+    return idx
+
+
+def _rand_hist(rng, force_pattern):
+    """history on one array; with `force_pattern`: accessor that fills a cache, in-place mutation, the accessor again"""
+    masked = rng.random() < 0.15
+    nd = 1 if masked else rng.randint(1, 2)
+    shape = [rng.randint(2, 7) for _ in range(nd)]
+    chunks = [list(random_chunks(rng, n)) for n in shape]
+    if all(len(c) == 1 for c in chunks):
+        k = rng.randint(1, shape[0] - 1)
+        chunks[0] = [k, shape[0] - k]
+    cur = [list(c) for c in chunks]
+    inp = {"chunks": chunks}
+    nvals = 1
+    for n in shape:
+        nvals *= n
+    if masked:
+        inp["start"] = "masked"
+        t = rng.randint(0, 2 * nvals - 2)
+        inp["threshold"] = t
+        vals = [2 * i + 1 for i in range(nvals)]
+        cuts = [sum(chunks[0][:i]) for i in range(len(chunks[0]) + 1)]
+        cur = [[sum(1 for v in vals[a:b] if v > t) for a, b in zip(cuts[:-1], cuts[1:])]]
+    unknown = masked
+
+    def accessor():
+        nbs = [len(c) for c in cur]
+        pool = ["blocks", "blocks", "partitions", "keys", "numblocks", "npartitions", "delayed", "chunks", "shape", "ndim", "size"]
+        if not unknown:
+            pool += ["vindex", "getitem"]
+        k = rng.choice(pool)
+        if k in ("blocks", "partitions"):
+            return {"op": k, "idx": _rand_block_idx(rng, nbs)}
+        if k == "vindex":
+            npts = rng.randint(1, 4)
+            return {"op": k, "points": [[rng.randrange(sum(c)) for _ in range(npts)] for c in cur]}
+        if k == "getitem":
+            return {"op": k, "idx": [[rng.choice([None, 0, 1]), rng.choice([None, -1, sum(c)]), rng.choice([None, 1, 2, -1])] for c in cur]}
+        return {"op": k}
+
+    def mutation():
+        nonlocal unknown, cur
+        if unknown:
+            pool = ["ccs"]     # out= needs known shapes, setitem needs known chunks
+        else:
+            pool = ["out_add", "out_neg", "setitem", "setitem", "setitem", "out_rechunked"]
+        k = rng.choice(pool)
+        if k == "setitem":
+            idx = []
+            for c in cur:
+                n = sum(c)
+                idx.append(rng.randrange(n) if rng.random() < 0.3 else
+                           [rng.choice([None, 0, 1]), rng.choice([None, n, n - 1]), rng.choice([None, 1, 2])])
+            return {"op": k, "idx": idx, "value": -rng.randint(1, 9)}
+        if k == "out_add":
+            return {"op": k, "k": rng.randint(1, 5)}
+        if k == "out_rechunked":
+            cur = [list(random_chunks(rng, sum(c))) for c in cur]
+            return {"op": k, "chunks": [list(c) for c in cur]}
+        if k == "ccs":
+            unknown = False
+        return {"op": k}
+
+    ops = []
+    if force_pattern:
+        first = {"op": rng.choice(["blocks", "partitions"]), "idx": _rand_block_idx(rng, [len(c) for c in cur])}
+        ops.append(first)
+        for _ in range(rng.randint(0, 2)):
+            ops.append(accessor())
+        ops.append(mutation())
+        for _ in range(rng.randint(0, 1)):
+            ops.append(mutation())
+        ops.append({"op": rng.choice(["blocks", "partitions"]), "idx": _rand_block_idx(rng, [len(c) for c in cur])})
+        for _ in range(rng.randint(0, 2)):
+            ops.append(accessor())
+    else:
+        for _ in range(rng.randint(3, 8)):
+            t = rng.random()
+            if t < 0.6:
+                ops.append(accessor())
+            elif t < 0.95:
+                ops.append(mutation())
+            else:
+                ops.append({"op": "compute"})
+    inp["ops"] = ops
+    return inp
+
+
+def _rand_cache(rng):
+    nd = rng.randint(1, 2)
+    chunks = [list(random_chunks(rng, rng.randint(1, 6))) for _ in range(nd)]
+    cur = [list(c) for c in chunks]
+    ops, name = [], 1
+    reads = ["numblocks", "npartitions", "shape", "ndim", "size", "keys", "keyarray", "keyarray", "keys"]
+    for _ in range(rng.randint(3, 10)):
+        t = rng.random()
+        if t < 0.55:
+            ops.append(["r", rng.choice(reads)])
+        elif t < 0.65:
+            name += 1
+            ops.append(["wname", name])
+        elif t < 0.75:
+            # a bare _chunks assignment: usually the same number of blocks (compute_chunk_sizes), sometimes not
+            if rng.random() < 0.8:
+                cur = [[max(0, v + rng.choice([-1, 0, 1])) for v in c] for c in cur]
+            else:
+                cur = [list(random_chunks(rng, max(1, sum(c)))) for c in cur]
+            ops.append(["wchunks", [list(c) for c in cur]])
+        else:
+            name += 1
+            if rng.random() < 0.5:
+                new = [list(random_chunks(rng, max(1, sum(c)))) if sum(c) else list(c) for c in cur]
+            else:
+                new = [list(c) for c in cur]
+            kind = rng.choice(["assign", "out"])
+            if kind == "out":
+                # handle_out requires equal shapes
+                new = [list(random_chunks(rng, sum(c))) if sum(c) else list(c) for c in cur] if rng.random() < 0.5 else [list(c) for c in cur]
+            cur = new
+            ops.append([kind, name, [list(c) for c in cur]])
+    return {"chunks": chunks, "ops": ops}
+
+
 def generate(ctx):
     rng = ctx.rng
     thorough = ctx.thorough()
+    # (H) histories on ONE Array object: cached attributes vs in-place mutations
+    yield "cache", {"chunks": [[2, 2], [3]], "ops": [["r", "keyarray"], ["assign", 2, [[2, 2], [3]]], ["r", "keyarray"]]}
+    yield "cache", {"chunks": [[2, 2]], "ops": [["r", "keyarray"], ["out", 2, [[1, 3]]], ["r", "keyarray"], ["r", "keys"]]}
+    yield "hist", {"chunks": [[2, 2, 2]], "ops": [{"op": "blocks", "idx": [("int", 1)]}, {"op": "setitem", "idx": [2], "value": -1},
+                                                  {"op": "blocks", "idx": [("int", 1)]}]}
+    yield "hist", {"chunks": [[2, 2, 2]], "ops": [{"op": "blocks", "idx": [("slice", [None, None, None])]}, {"op": "out_add", "k": 1},
+                                                  {"op": "partitions", "idx": [("list", [2, 0])]}]}
+    for _ in range(ctx.n(250, 5000)):
+        yield "cache", _rand_cache(rng)
+    for i in range(ctx.n(110, 2500)):
+        yield "hist", _rand_hist(rng, force_pattern=(i % 2 == 0))
     # (0) Python's own semantics: the specification side
     for n in range(0, 5):
         for s in _all_slices(n):
